@@ -14,7 +14,7 @@ BQ = {name: 1 for name, _ in PROGRAMS}
 BT = {"large-frame-vs-small": 1, "two-senders": 2, "two-compressed-senders": 2, "binary-vs-text-compressed": 2, "sender-vs-loop": 2, "three-senders": 1}
 RULE = ('every schedule with at most 1-2 pre-emptions (line granularity, stateless exhaustive search) of 5 thread programs (2-3 threads x 1-2 sends each: '
         'send_text / send_binary / send_ping / the loop\'s pong and auto-ping; with and without negotiated compression, context takeover), every sendall split '
-        'in two steps; thorough adds 6000 random opcode-granular schedules; non-trivial = distinct (program, wire order, call results)')
+        'in two steps; every schedule with one pre-emption at OPCODE granularity for the two-thread programs; thorough adds 6000 random opcode-granular schedules; non-trivial = distinct (program, wire order, call results)')
 
 
 def run(tier, seed):
